@@ -4,7 +4,7 @@ import itertools, re
 
 PROP = 'C14'
 PROPS_MODULES = ['LA.Props.C14']
-GEN = ['EntryBits']
+GEN = ['EntryBits', 'EntryFflags']
 ASSUMPTIONS = [
     'x86_64 Linux/glibc ABI: time_t, long, dev_t, ino_t, nlink_t 64 bit; mode_t, uid_t, gid_t, unsigned 32 bit; '
     'struct stat has st_atim.tv_nsec and no st_birthtime; major/minor/makedev are glibc gnu_dev_* (modelled by hand)',
@@ -16,7 +16,8 @@ ASSUMPTIONS = [
     'malloc never fails',
     'set_*time() arguments satisfy the no-overflow precondition of FIX_NS, otherwise the C executes signed overflow '
     '(recorded as finding C14/fixns-overflow; the model answers "undefined")',
-    'ACL part of the entry (acl list, last column of strmode) is property C15; file-flag *text* (platform table) is not modelled',
+    'ACL part of the entry (acl list, last column of strmode) is property C15; the file-flag name table is the one of this '
+    'platform (Linux FS_*_FL), regenerated from the preprocessed archive_entry.c',
 ]
 TRUSTED = ['S_ISUID/S_ISGID/S_ISVTX values and the glibc device-number macros are written by hand in the model',
            'the harness reads the private sparse/xattr lists for its per-step dump (the public iterator API mutates the '
@@ -24,7 +25,7 @@ TRUSTED = ['S_ISUID/S_ISGID/S_ISVTX values and the glibc device-number macros ar
            'the harness re-encodes the wide view of a string to UTF-8 itself before comparing the three views']
 MANIFEST = {
     'text': 'Lean theorems over a field-for-field model of struct archive_entry (archive_entry.c, _sparse.c, _xattr.c, '
-            '_stat.c, _copy_stat.c, _strmode.c; 142 of the 166 public entry functions): every getter after its setter returns '
+            '_stat.c, _copy_stat.c, _strmode.c; 146 of the 166 public entry functions): every getter after its setter returns '
             'the normalised argument (FIX_NS for all integers inside the no-overflow range, with the overflow boundary '
             'characterised exactly), every setter leaves the getters of every other field group alone (one theorem over all '
             'operation/group pairs), and for every finite history of setters, unsetters, copy_stat, clear and iterator calls a '
@@ -36,8 +37,8 @@ MANIFEST = {
             'after every step.',
     'note': 'Trusted: Lean kernel; correspondence harness and generators; glibc device-number macros and stat casts '
             '(x86_64 Linux) written by hand.  Strings are modelled by their bytes (valid UTF-8 in C.UTF-8 only; invalid byte '
-            'strings are neither generated nor modelled).  ACLs (C15), the link resolver (C17) and the platform-specific '
-            'file-flag text table are outside.  Heap sharing between clone and original is a runtime fact checked by the '
+            'strings are neither generated nor modelled).  ACLs (C15) and the link resolver (C17) are '
+            'outside.  Heap sharing between clone and original is a runtime fact checked by the '
             'sanitizers on the generated histories, not proved.',
     'technique': 'Lean 4 proof (per-operation normal forms, group projections, induction over op histories) + model/C '
                  'differential correspondence',
@@ -65,7 +66,12 @@ XVALS = ['-', '00', '6162', '00ff00', 'ff' * 300, '0a']
 MACS = ['~', '-', '00', '4d6163', 'ff' * 70]
 SLTYPES = [0, 1, 2, 3, -1, 2**31 - 1, -2**31]
 ENCS = [0, 1, 2, -1, 255, 256, 128, 512]
-FFLAGS = [0, 1, 0x10, 0x20, 0x40, 2**32 - 1, 2**32, 2**64 - 1]
+FFLAGS = [0, 0, 1, 2, 0x10, 0x20, 0x40, 0x50, 0x80, 0x400, 0x4000, 0x800000, 2**32 - 1, 2**32, 2**64 - 1]
+FFTEXTS = [t.encode().hex() or '-' for t in (
+    '', 'nodump', 'dump', 'sappnd', 'nosappnd', 'sappend,schg', 'uappnd,nodump', 'nodump,sappnd bogus', 'bogus', ',, \t',
+    'schg\tnoschange', 'simmutable nosimmutable', 'journal-data,nojournal', 'secdel,securedeletion,sync,tail,notail',
+    'topdir,cow,nocow,projinherit', 'no', 'nono', 'dum', 'nodumpx', 'atime,noatime,undel,compress,dirsync', '\u00e9\u00e9,nodump',
+    'NODUMP', 'nodump,')]
 NLINKS = [0, 1, 2, 3, 2**31, 2**32 - 1]
 DIGSZ = {1: 16, 2: 20, 3: 20, 4: 32, 5: 48, 6: 64}
 
@@ -155,8 +161,10 @@ class Gen:
             return f'{rng.choice(HL_APIS + SL_APIS + LK_APIS)} {rng.choice(STRS)}'
         if r < 0.67:
             return rng.choice(['set_link_to_hardlink', 'set_link_to_symlink'])
-        if r < 0.69:
+        if r < 0.68:
             return f'set_fflags {rng.choice(FFLAGS)} {rng.choice(FFLAGS)}'
+        if r < 0.69:
+            return rng.choice([f"{rng.choice(['copy_fflags_text', 'copy_fflags_text_w'])} {rng.choice(FFTEXTS)}", 'fflags_text'])
         if r < 0.705:
             return f'set_symlink_type {rng.choice(SLTYPES)}'
         if r < 0.73:
@@ -208,7 +216,8 @@ ENUM_OPS = [
     'set_symlink 64', 'copy_symlink ~', 'update_symlink_utf8 c3a9', 'set_link 65', 'set_link ~', 'update_link_utf8 66',
     'set_link_to_hardlink', 'set_link_to_symlink',
     'xattr_add 61 62', 'xattr_add 63 -', 'xattr_clear', 'xattr_reset', 'xattr_next',
-    'set_is_data_encrypted 1', 'set_is_metadata_encrypted 256', 'set_symlink_type 2', 'set_fflags 1 2',
+    'set_is_data_encrypted 1', 'set_is_metadata_encrypted 256', 'set_symlink_type 2', 'set_fflags 16 64', 'set_fflags 0 0',
+    'copy_fflags_text 6e6f64756d702c626f677573', 'copy_fflags_text_w 736170706e64', 'fflags_text',
     'copy_mac_metadata 4d', 'copy_mac_metadata -', 'set_digest 1 ' + 'ab' * 16, 'set_digest 7 00',
     'copy_stat 1 -1 2 1000000000 3 5 2049 1000 1000 18446744073709551615 4294967298 5 77 33261', 'stat',
     'clear', 'clone', 'c:set_size 7', 'c:copy_symlink 67', 'c:xattr_add 64 65', 'c:clear',
@@ -225,7 +234,7 @@ ENUM3_OPS = [o for o in ENUM_OPS if o.split()[0] in (
     'unset_mtime', 'unset_size', 'sparse_add', 'sparse_clear', 'sparse_reset', 'sparse_next', 'sparse_count', 'set_devminor',
     'set_rdevmajor', 'set_perm', 'set_filetype', 'set_hardlink', 'copy_hardlink', 'copy_hardlink_w', 'update_hardlink_utf8',
     'set_hardlink_utf8', 'set_symlink', 'copy_symlink', 'update_symlink_utf8', 'set_link', 'update_link_utf8', 'set_link_to_hardlink',
-    'set_link_to_symlink', 'xattr_add', 'xattr_clear', 'xattr_reset', 'xattr_next', 'stat', 'clear', 'clone', 'set_size')]
+    'set_link_to_symlink', 'xattr_add', 'xattr_clear', 'xattr_reset', 'xattr_next', 'stat', 'clear', 'clone', 'set_size', 'set_fflags', 'fflags_text')]
 
 
 class Ent(Engine):
@@ -413,6 +422,10 @@ class Ent(Engine):
             return 'dev getter does not return what was set'
         if name == 'set_rdev' and d['rdev'].split(',')[0::3] != [w[1], '1']:
             return 'rdev getter does not return what was set'
+        if name == 'set_fflags' and d['ff'] != f'{w[1]},{w[2]}':
+            return 'fflags getter does not return the bitmaps that were set'
+        if name in ('copy_fflags_text', 'copy_fflags_text_w') and d['fft'] != w[1]:
+            return f'fflags_text getter returns {d["fft"]} after {name}'
         if name in STR_APIS:
             k = {'pathname': 'p', 'uname': 'un', 'gname': 'gn', 'sourcepath': 'sp'}[re.sub(r'^(set|copy|update)_|_utf8$|_w$', '', name)]
             if d[k] != w[1]:
